@@ -29,7 +29,7 @@ Range(s) == {s[i] : i \in 1..Len(s)}
 (* ------------------------------------------------------------------ valid schema family *)
 (* choice record: inh (inheritance shape), sx (supertype expression of the root), abs (root abstract), *)
 (* ak (attribute-kind preset), rules (DERIVE / INVERSE / UNIQUE / WHERE / FUNCTION present), aux (second schema) *)
-Types(c) == << [name |-> "colour", k |-> "enum", items |-> <<"red_green", "red", "green", "blue", "blue_ish">>, members |-> <<>>, base |-> T("")],
+Types0(c) == << [name |-> "colour", k |-> "enum", items |-> <<"red_green", "red", "green", "blue", "blue_ish">>, members |-> <<>>, base |-> T("")],
                [name |-> "lab", k |-> "simple", items |-> <<>>, members |-> <<>>, base |-> T("STRING")],
                [name |-> "cnt", k |-> "simple", items |-> <<>>, members |-> <<>>, base |-> T("INTEGER")],
                [name |-> "pick", k |-> "select", items |-> <<>>, members |-> <<"e1", "lab", "cnt">>, base |-> T("")],
@@ -37,7 +37,11 @@ Types(c) == << [name |-> "colour", k |-> "enum", items |-> <<"red_green", "red",
             \o (IF c.ak = 1 THEN <<>> ELSE
                 << [name |-> "colour2", k |-> "rename", items |-> <<>>, members |-> <<>>, base |-> T("colour")],
                    [name |-> "pick2", k |-> "rename", items |-> <<>>, members |-> <<>>, base |-> T("pick")],
-                   [name |-> "nest", k |-> "aggr", items |-> <<>>, members |-> <<>>, base |-> AggOf("LIST", 1, 2, AggF("ARRAY", 0, 2, "INTEGER", TRUE, FALSE))] >>)
+                   [name |-> "nest", k |-> "aggr", items |-> <<>>, members |-> <<>>, base |-> AggOf("LIST", 1, 2, AggF("ARRAY", 0, 2, "INTEGER", TRUE, FALSE))],
+                   \* a select one of whose items is a select (a value is still written with the keyword of the defined type it has)
+                   [name |-> "npick", k |-> "select", items |-> <<>>, members |-> <<"pick", "colour">>, base |-> T("")] >>)
+(* the single-entity schema has no select either: nothing in it names the entity but its own declaration          *)
+Types(c) == IF c.inh = "single" THEN SelectSeq(Types0(c), LAMBDA t : t.name \notin {"pick", "pick2", "npick"}) ELSE Types0(c)
 (* (the enumeration declares an item before a proper prefix of it and another after one: a reader that matches    *)
 (* item names by prefix, or in declaration order without comparing lengths, confuses them)                         *)
 (* type shapes (choice field ts): "base" = the types above only; "aggs" = one named type and one attribute per      *)
@@ -78,11 +82,11 @@ RootAttrs(ak) ==
     [] ak = 2 -> <<A("a1", T("INTEGER"), FALSE), A("a2", T("colour"), FALSE), A("a3", T("lab"), TRUE), A("a4", Agg("LIST", 1, 3, "INTEGER"), FALSE)>>
     [] ak = 3 -> <<A("a1", T("INTEGER"), FALSE), A("a2", T("pick"), TRUE), A("a3", Agg("SET", 0, -1, "STRING"), FALSE), A("a4", T("BOOLEAN"), FALSE),
                    A("a5", T("LOGICAL"), TRUE), A("a6", T("BINARY"), TRUE), A("a7", T("NUMBER"), FALSE), A("a8", T("ilist"), TRUE),
-                   A("a9", T("STRING"), FALSE), A("a10", T("REAL"), FALSE), A("a11", T("lab"), FALSE)>>
+                   A("a9", T("STRING"), FALSE), A("a10", T("REAL"), FALSE), A("a11", T("lab"), FALSE), A("a12", T("npick"), TRUE)>>
 Ent(n, sup, abs, sx, attrs) == [name |-> n, supers |-> sup, abstract |-> abs, sexpr |-> sx, attrs |-> attrs,
                                 derive |-> <<>>, inverse |-> <<>>, uniq |-> <<>>, where |-> <<>>]
 Supers(c, e) ==
-  CASE c.inh = "none"    -> <<>>
+  CASE c.inh \in {"none", "single"} -> <<>>
     [] c.inh = "chain"   -> IF e = "e2" THEN <<"e1">> ELSE IF e = "e3" THEN <<"e2">> ELSE <<>>
     [] c.inh = "multi"   -> IF e = "e2" THEN <<"e1">> ELSE IF e = "e3" THEN <<"e1">> ELSE IF e = "e4" THEN <<"e2", "e3">> ELSE <<>>
     [] c.inh = "fan"     -> IF e \in {"e2", "e3"} THEN <<"e1">> ELSE <<>>
@@ -92,11 +96,12 @@ Supers(c, e) ==
     [] c.inh = "nestedmi" -> IF e = "e2" THEN <<"e1">> ELSE IF e = "e3" THEN <<"r2", "r3">> ELSE IF e = "e4" THEN <<"e2", "e3">>
                              ELSE IF e = "e5" THEN <<"e4">> ELSE <<>>
 RootExpr(c) ==
-  IF c.sx = "none" \/ c.inh \in {"none", "chain", "tworoots", "nestedmi"} THEN NoTree
+  IF c.sx = "none" \/ c.inh \in {"none", "single", "chain", "tworoots", "nestedmi"} THEN NoTree
   ELSE Op(c.sx, <<Leaf("e2"), Leaf("e3")>>)
 Names(c) == IF c.inh = "multi" THEN <<"e1", "e2", "e3", "e4">>
             ELSE IF c.inh = "tworoots" THEN <<"e1", "e2", "r2", "e3", "e4", "h">>
-            ELSE IF c.inh = "nestedmi" THEN <<"e1", "e2", "r2", "r3", "e3", "e4", "e5", "h">> ELSE <<"e1", "e2", "e3">>
+            ELSE IF c.inh = "nestedmi" THEN <<"e1", "e2", "r2", "r3", "e3", "e4", "e5", "h">>
+            ELSE IF c.inh = "single" THEN <<"e1">> ELSE <<"e1", "e2", "e3">>
 WithRules(c, e) ==
   IF ~c.rules THEN e
   ELSE IF e.name = "e1" THEN [e EXCEPT !.derive = <<[name |-> "d1", ty |-> T("INTEGER"), expr |-> "a1 + f1(a1)"]>>,
@@ -164,6 +169,10 @@ Choices(deep) ==
      a \in (IF deep THEN BOOLEAN ELSE {FALSE}), k \in (IF deep THEN 1..3 ELSE {2, 3}), r \in BOOLEAN,
      x \in BOOLEAN}
   \cup {[inh |-> "chain", sx |-> "none", abs |-> FALSE, ak |-> 2, rules |-> FALSE, aux |-> FALSE, ts |-> t] : t \in TypeShapes(deep)}
+  \* a schema with exactly one entity (and the named types, among them aggregates): whatever the generators keep
+  \* per "previous entity" or per "first entity" has only this one to work with
+  \cup {[inh |-> "single", sx |-> "none", abs |-> FALSE, ak |-> k, rules |-> FALSE, aux |-> FALSE, ts |-> t] :
+          k \in {2}, t \in {[k |-> "base"], [k |-> "aggs"]}}
   \cup {[inh |-> i, sx |-> "oneof", abs |-> FALSE, ak |-> 2, rules |-> FALSE, aux |-> FALSE, ts |-> [k |-> "base"], nm |-> n] :
           i \in {"chain", "fan"}, n \in {"cxx", "py", "p21", "us"}}
 
